@@ -35,6 +35,9 @@ import (
 type Outcome struct {
 	Kind string `json:"kind"`
 	DNs  int64  `json:"d_ns,omitempty"`
+	// GaveUp (fail, failx): the failure wraps context.Canceled although the
+	// attempt's context is live (something inside the attempt gave up on its own)
+	GaveUp bool `json:"gave_up,omitempty"`
 }
 
 // RacePlan is one C18 schedule. All durations are final (residues included):
@@ -56,6 +59,9 @@ type RacePlan struct {
 	// SharedDialer: the repetitions go through ONE Dialer value (an application
 	// keeps its Dialer), not through a fresh one each.
 	SharedDialer bool `json:"shared_dialer,omitempty"`
+	// Retuned (with SharedDialer): the Dialer has been used before, with other
+	// settings; the application changed them before the calls looked at.
+	Retuned bool `json:"retuned,omitempty"`
 }
 
 func (p *RacePlan) delay() time.Duration {
@@ -149,6 +155,11 @@ type simConn struct {
 	closes  []int64 // virtual instants (ns since the rep's start)
 }
 
+// ConnectionState: a connection that can be asked and that did not negotiate
+// ECH (a DialFunc of the application's own; what it hands out is the
+// application's business).
+func (c *simConn) ConnectionState() tls.ConnectionState { return tls.ConnectionState{} }
+
 func (c *simConn) Close() error {
 	now := int64(time.Since(c.rs.t0))
 	c.rs.seq.Add(1)
@@ -209,9 +220,25 @@ func (rs *raceState) untilRelease(idx int) time.Duration {
 	return d
 }
 
-type failErr struct{ idx int }
+type failErr struct {
+	idx   int
+	cause error
+}
 
-func (e *failErr) Error() string { return fmt.Sprintf("scripted failure of target %d", e.idx) }
+func (e *failErr) Error() string {
+	if e.cause != nil {
+		return fmt.Sprintf("scripted failure of target %d: %v", e.idx, e.cause)
+	}
+	return fmt.Sprintf("scripted failure of target %d", e.idx)
+}
+func (e *failErr) Unwrap() error { return e.cause }
+
+func scriptedFailure(idx int, o Outcome) error {
+	if o.GaveUp {
+		return &failErr{idx, context.Canceled}
+	}
+	return &failErr{idx: idx}
+}
 
 type releasedErr struct{ idx int }
 
@@ -256,7 +283,7 @@ func (rs *raceState) dialFunc(p *RacePlan, index map[string]int) func(context.Co
 					if o.Kind == "ok" {
 						conn = mk()
 					} else {
-						err = &failErr{rec.idx}
+						err = scriptedFailure(rec.idx, o)
 					}
 				case <-ctx.Done():
 					tm.Stop()
@@ -270,7 +297,7 @@ func (rs *raceState) dialFunc(p *RacePlan, index map[string]int) func(context.Co
 				conn = mk()
 			case "failx":
 				time.Sleep(time.Duration(o.DNs))
-				err = &failErr{rec.idx}
+				err = scriptedFailure(rec.idx, o)
 			case "hangxok":
 				time.Sleep(rs.untilRelease(rec.idx))
 				conn = mk()
@@ -367,6 +394,19 @@ func executeRace(t *testing.T, prop string, seed uint64, p *RacePlan) *core.Resu
 			if p.SharedDialer {
 				if shared == nil {
 					shared = d
+					if p.Retuned {
+						// an earlier use of this Dialer, with other settings
+						d.MaxConcurrency, d.ConcurrencyDelay, d.Timeout = 1+(p.maxConc()%4), 7*p.delay()+time.Millisecond, p.timeout()/3+time.Millisecond
+						d.DialFunc = func(ctx context.Context, network, addr string, tc *tls.Config) (*simConn, error) {
+							time.Sleep(time.Microsecond)
+							return nil, errors.New("warm-up")
+						}
+						core.Guard(func() { d.Dial(context.Background(), "tcp", "192.0.2.1:443", nil) })
+						time.Sleep(time.Second)
+						synctest.Wait()
+						d.MaxConcurrency, d.ConcurrencyDelay, d.Timeout = p.MaxConc, time.Duration(p.DelayNs), time.Duration(p.TimeoutNs)
+						rs.t0 = time.Now()
+					}
 				}
 				d = shared
 			}
